@@ -23,6 +23,7 @@ type Obligation struct {
 	Label  string
 	Tags   []string
 	Path   string
+	Dep    bool // belongs to a dependency (callee closure) of the property, not to a function tagged with it
 	Hyps   *pcNode
 	Goal   *Term
 	Src    string
